@@ -365,7 +365,12 @@ def resolve_path(interp, c, nargs):
                     continue
             else:
                 # derive-generated inherent method (prost accessors): self type from the first parameter
-                if not b.param_tys or ty_head(b.param_tys[0]) != tyname:
+                if not b.param_tys:
+                    continue
+                p0 = strip_ref(norm_ty(b.param_tys[0]))
+                if ty_head(p0) == 'Option' and generic_args(p0):
+                    p0 = generic_args(p0)[0]          # oneof `merge(&mut Option<Enum>, ..)`
+                if ty_head(p0) != tyname:
                     continue
             cands.append(b)
         if len(cands) == 1:
